@@ -779,16 +779,23 @@ def times(seq, n):
     return list(seq) * n
 
 
-def is_list(v):
-    return isinstance(v, list)
+def is_list(kind):
+    # isList / isDict / isSet / isIterable look at what kind of value the argument is:
+    # 'list' | 'iterator' | 'set' | 'dict' | 'scalar' (an iterator is iterable but is not a list)
+    return kind == 'list'
 
 
-def is_dict(v):
-    return isinstance(v, dict)
+def is_dict(kind):
+    return kind == 'dict'
 
 
-def is_set(v):
-    return isinstance(v, frozenset)
+def is_set(kind):
+    return kind == 'set'
+
+
+def is_iterable_kind(kind):
+    # isIterable docstring: true for [] and set(1,2), false for "foo" and {"a" => 1}
+    return kind in ('list', 'iterator', 'set')
 
 
 def delete(c, position, count=1):
